@@ -447,6 +447,18 @@ def _try_inline(func: ast.AST, name: str, defs: dict) -> bool:
     inside = {id(n) for s in after for n in ast.walk(s)}
     if not all(id(u) in inside for u in uses):
         return False  # used outside the statements that follow the definition in its block
+    # the object the local names must not be mutated through the local: `d = {...}; d[k] = v` / `d.update(..)` / `d += ..`
+    use_ids = {id(u) for u in uses}
+    for n in _own_nodes(func):
+        if isinstance(n, (ast.Subscript, ast.Attribute)) and isinstance(n.ctx, (ast.Store, ast.Del)) and id(n.value) in use_ids:
+            return False
+        if isinstance(n, ast.Call) and isinstance(n.func, ast.Attribute) and id(n.func.value) in use_ids and n.func.attr in LOCAL_MUTATORS:
+            return False
+        if isinstance(n, ast.AugAssign) and isinstance(n.target, ast.Name) and n.target.id == name:
+            return False
+    # a fresh mutable object used at several places is ONE object: copies of the display would be several
+    if len(uses) > 1 and any(isinstance(n, (ast.List, ast.Dict, ast.Set, ast.ListComp, ast.DictComp, ast.SetComp, ast.GeneratorExp)) for n in [expr]):
+        return False
     free = {n.id for n in ast.walk(expr) if isinstance(n, ast.Name)}
     attrs = {ast.unparse(n) for n in ast.walk(expr) if isinstance(n, (ast.Attribute, ast.Subscript))}
     # statements up to the last use
